@@ -347,7 +347,7 @@ def symbol_tables(facts, mod, rule):
                         e = cs.operand(t2["args"][1])
                         if e[0] == "cfn":
                             variant = e[1].rsplit("::", 1)[-1]
-            rows.append((prefix, gfield, lfield, variant, f.loc(bb)))
+            rows.append((prefix, gfield, lfield, variant, f.loc(bb), cdef))
     return wt, rows
 
 
@@ -357,12 +357,12 @@ def run_r3(ctx, rule):
         wt, rows = symbol_tables(facts, mod, rule)
         if len(wt) != 7 or len(rows) != 7:
             rule.bad("%s/symbol-table-size" % mod, "expected 7 symbol kinds on both sides (writer %d, reader %d)" % (len(wt), len(rows)), kind="anchor-missing")
-        for prefix, gfield, lfield, variant, where in rows:
+        for prefix, gfield, lfield, variant, where, _cd in rows:
             k = "%s/symbol/%s" % (mod, variant)
             rule.check(variant in wt and wt[variant] == prefix, k + "/prefix", "%s: symbol %s is read with prefix %r and written with %r" % (mod, variant, prefix, wt.get(variant)), where)
             rule.check(gfield is not None and gfield == lfield, k + "/limit", "%s: the index limit of %s symbols is the count that is tested (> 0 test on %s, limit %s - 1)" % (mod, variant, gfield, lfield), where)
         inv = {}
-        for prefix, gfield, lfield, variant, where in rows:
+        for prefix, gfield, lfield, variant, where, _cd in rows:
             inv.setdefault(prefix, []).append(variant)
         for p, vs in inv.items():
             if len(vs) > 1:
